@@ -346,8 +346,15 @@ def main():
         "violations": len(violations),
         "harness_errors": harness_errors,
     }
-    os.makedirs(os.path.join(ROOT, "evidence"), exist_ok=True)
-    json.dump(evidence, open(os.path.join(ROOT, "evidence", "%s.json" % pid), "w"), indent=1)
+    # experiments (a scratch worktree through VF_REPO, or a subset of conditions through --only) must not overwrite the
+    # evidence of the registered commands, which always run every condition of the tier against /repo itself
+    evid_dir = os.path.join(ROOT, "evidence")
+    if os.environ.get("VF_EVIDENCE_DIR"):
+        evid_dir = os.environ["VF_EVIDENCE_DIR"]
+    elif os.path.realpath(REPO) != "/repo" or a.only:
+        evid_dir = "/var/tmp/vf-scratch-evidence"
+    os.makedirs(evid_dir, exist_ok=True)
+    json.dump(evidence, open(os.path.join(evid_dir, "%s.json" % pid), "w"), indent=1)
     # ---- 7. report
     for e in evid_conditions:
         tot = sum((s.get("paths") or 0) for s in e["shards"])
